@@ -6,6 +6,7 @@ import (
 	"bytes"
 	"fmt"
 	"math/big"
+	"strings"
 	"sync"
 
 	"github.com/onflow/crypto"
@@ -25,7 +26,7 @@ func C17(run *mon.Run) {
 	run.Rule = "key-pair kinds {equal, distinct, negated, identity-left, identity-right} x proof kinds; shape = (pair kind, proof kind); expected verdict = both proofs canonical G1 and no identity key and [k2]P1 == [k1]P2 by reference arithmetic"
 	run.Assumptions = []string{"same trusted base as C01; discrete logs of all keys known to the harness"}
 	r := run.Rand("main")
-	nPairs := run.Pick(40, 800)
+	nPairs := run.Pick(54, 900)
 	h := crypto.NewExpandMsgXOFKMAC128("spock-tag")
 	h2 := crypto.NewExpandMsgXOFKMAC128("spock-other-tag")
 	idPk := crypto.IdentityBLSPublicKey()
@@ -42,8 +43,12 @@ func C17(run *mon.Run) {
 			r := run.Rand(fmt.Sprintf("pair-%d", pi))
 			k1 := randScalar(r)
 			var k2 *big.Int
-			pairKind := [...]string{"distinct", "equal", "negated", "identity-left", "identity-right", "distinct", "identity-both", "jacobian-left", "jacobian-right", "jacobian-both"}[pi%10]
-			switch pairKind {
+			pairKind := [...]string{"distinct", "equal", "negated", "identity-left", "identity-right", "distinct", "identity-both", "jacobian-left", "jacobian-right", "jacobian-both",
+				// the same relations with the key OBJECTS in other representations: one key object passed twice,
+				// an equal key in Jacobian form on one or both sides, a key re-decoded from its bytes
+				"equal/same-object", "equal/jacobian-left", "equal/jacobian-right", "equal/jacobian-both", "equal/decoded-right", "negated/jacobian-left", "negated/jacobian-both", "distinct/decoded-left"}[pi%18]
+			relation, repr, _ := strings.Cut(pairKind, "/")
+			switch relation {
 			case "equal":
 				k2 = new(big.Int).Set(k1)
 			case "negated":
@@ -54,14 +59,14 @@ func C17(run *mon.Run) {
 			sk1v, sk2v := skFromInt(k1), skFromInt(k2)
 			pk1, pk2 := sk1v.PublicKey(), sk2v.PublicKey()
 			kk1, kk2 := k1, k2
-			switch pairKind {
+			switch relation {
 			case "identity-left":
 				pk1, kk1 = idPk, big.NewInt(0)
 			case "identity-right":
 				pk2, kk2 = idPk, big.NewInt(0)
 			case "identity-both":
 				pk1, kk1, pk2, kk2 = idPk, big.NewInt(0), idPk, big.NewInt(0)
-				if pi%20 >= 10 {
+				if pi%36 >= 18 {
 					pk2, _ = crypto.RemoveBLSPublicKeys(sk2v.PublicKey(), []crypto.PublicKey{sk2v.PublicKey()})
 				}
 			case "jacobian-left":
@@ -70,6 +75,24 @@ func C17(run *mon.Run) {
 				pk2 = jacobianForm(pk2, r)
 			case "jacobian-both":
 				pk1, pk2 = jacobianForm(pk1, r), jacobianForm(pk2, r)
+			}
+			switch repr {
+			case "same-object":
+				pk2 = pk1
+			case "jacobian-left":
+				pk1 = jacobianForm(pk1, r)
+			case "jacobian-right":
+				pk2 = jacobianForm(pk2, r)
+			case "jacobian-both":
+				pk1, pk2 = jacobianForm(pk1, r), jacobianForm(pk2, r)
+			case "decoded-right":
+				if d, err := crypto.DecodePublicKey(BLS, pk2.Encode()); err == nil {
+					pk2 = d
+				}
+			case "decoded-left":
+				if d, err := crypto.DecodePublicKey(BLS, pk1.Encode()); err == nil {
+					pk1 = d
+				}
 			}
 			data := mon.RandBytes(r, 1+r.IntN(200))
 			data2 := append(append([]byte{}, data...), 1)
@@ -184,15 +207,37 @@ func C17(run *mon.Run) {
 				cases = append(cases, spockCase{"left-infinity-garbage", g, base2})
 				cases = append(cases, spockCase{"random", mon.RandBytes(r, 48), mon.RandBytes(r, 48)})
 			}
-			for _, cs := range cases {
-				expect := false
-				if len(cs.p1) == 48 && len(cs.p2) == 48 {
-					q1, c1 := ref.DecodeG1(cs.p1)
-					q2, c2 := ref.DecodeG1(cs.p2)
+			spockExpect := func(p1, p2 []byte) bool {
+				if len(p1) == 48 && len(p2) == 48 {
+					q1, c1 := ref.DecodeG1(p1)
+					q2, c2 := ref.DecodeG1(p2)
 					if c1 == ref.DecOK && c2 == ref.DecOK && ref.InG1(q1) && ref.InG1(q2) && kk1.Sign() != 0 && kk2.Sign() != 0 {
-						expect = ref.E1.Equal(ref.E1.Mul(q1, kk2), ref.E1.Mul(q2, kk1))
+						return ref.E1.Equal(ref.E1.Mul(q1, kk2), ref.E1.Mul(q2, kk1))
 					}
 				}
+				return false
+			}
+			// first of all (before these key objects have verified anything): the left proofs of the case
+			// list through one reused buffer against the honest right proof, then the right proofs likewise
+			{
+				var left, right []byteCand
+				for ci, cs := range cases {
+					if ci < 12 || ci%(4+pi%5) == 0 && len(left) < run.Pick(28, 60) {
+						left = append(left, byteCand{cs.p1, cs.kind})
+						right = append(right, byteCand{cs.p2, cs.kind})
+					}
+				}
+				rp := func(side string) func(kind, what string, b []byte) {
+					return func(kind, what string, b []byte) {
+						run.Violate("C17:reused-buffer:"+side+":"+kind, fmt.Sprintf("SPOCKVerify (pair %s), %s proof of kind %s, %s", pairKind, side, kind, what), map[string]any{"pair": pairKind, "kind": kind, "k1": kk1.String(), "k2": kk2.String(), "proof": mon.Hex(b), "side": side})
+					}
+				}
+				n := reusedBufferPass(base1, left, func(b []byte) (bool, error) { return crypto.SPOCKVerify(pk1, b, pk2, base2) }, func(b []byte) bool { return spockExpect(b, base2) }, rp("left"))
+				n += reusedBufferPass(base2, right, func(b []byte) (bool, error) { return crypto.SPOCKVerify(pk1, base1, pk2, b) }, func(b []byte) bool { return spockExpect(base1, b) }, rp("right"))
+				run.Eval(n)
+			}
+			for _, cs := range cases {
+				expect := spockExpect(cs.p1, cs.p2)
 				for swap := 0; swap < 2; swap++ {
 					a1, b1, a2, b2 := pk1, cs.p1, pk2, cs.p2
 					if swap == 1 {
